@@ -11,7 +11,7 @@
      application's byte slices (allocated with spare capacity filled with a sentinel), interleaved on one
      goroutine along a generated schedule (driver alias) or concurrently, one goroutine per session
      (driver race; the schedule is then unknown: []).  Every session's observations are compared with
-     EngineModel run for that session alone (value semantics: what C19_vm_run_on_heap says the slice
+     EngineModel run for that session alone, configured with that session's own entry function (value semantics: what C19_vm_run_on_heap says the slice
      heap computes), the final shared arrays with the model's (C19_no_write_to_shared).
    The monitor looks at observations only: outputs equal those of the solo runs; shared arrays
    byte-identical to their initial content, sentinel region included; no session's st.Code ever
@@ -72,7 +72,9 @@ Record acase := mkAcase {
   ac_app : app;
   ac_cfg : config;
   ac_spare : list N;                                   (* the sentinel bytes behind every shared slice *)
-  ac_sess : list (bool * list (list N * eobs));        (* per session: persisted?, (input, observation) in its own order *)
+  ac_sess : list (bool * option (list fres) * list (list N * eobs));
+                                                       (* per session: persisted?, the script of ITS entry function (engine.WithFirst; differs
+                                                          from session to session), (input, observation) in its own order *)
   ac_sched : list N;                                   (* which session each request of the run belonged to ([]: concurrent) *)
   ac_solo : list (list sresp);                         (* per session: its responses when served alone *)
   ac_final : list (list N);                            (* code arrays afterwards, full capacity, in a_code order *)
@@ -80,10 +82,15 @@ Record acase := mkAcase {
   ac_other_intact : bool                               (* template / label arrays byte-identical afterwards *)
 }.
 
-Definition sess_corr_ok (a : app) (c : config) (s : bool * list (list N * eobs)) : bool :=
+Definition cfg_with_first (c : config) (f : option (list fres)) : config :=
+  mkCfg (c_out c) (c_root c) (c_flagcount c) (c_cachesize c) (c_lang c) (c_sep c) (c_reset_empty c) f.
+
+Definition sess_corr_ok (a : app) (c0 : config) (s : bool * option (list fres) * list (list N * eobs)) : bool :=
   let rs := app_rsrc a in
-  if fst s then corr_pers rs c (mkPw None [] [] false) (snd s) 1 =? 0
-  else corr_long rs c (new_engine c None [] []) (snd s) 1 =? 0.
+  let '(pers, first, steps) := s in
+  let c := cfg_with_first c0 first in
+  if pers then corr_pers rs c (mkPw None [] [] false) steps 1 =? 0
+  else corr_long rs c (new_engine c None [] []) steps 1 =? 0.
 
 Definition app_tbl (a : app) (spare : list N) : list (list N * list N) := map (fun kv => (snd kv, spare)) (a_code a).
 
